@@ -129,10 +129,11 @@ PROPS['C15'] = dict(
 )
 
 PROPS['C11'] = dict(
-    level='other', harness='h11', min_t1=2,
-    explanation='T1: the NULL-strict getitem / getter node classes (shared with C01). Bounded (T3): every column of every ledger table, and the metadata / '
-                'open / commodity functions, against a direct traversal of the directives on generated ledgers. Column accessor contracts (T1) are listed '
-                'in the evidence as they are built.',
+    level='other', harness='h11', min_t1=30,
+    explanation='T1 (all inputs): 32 column accessors of the postings and entries tables return the attribute the naming rule designates (NULL without cost / metadata / '
+                'for non-transactions), derived from the column name; the NULL-strict getitem / getter node classes. Bounded (T3): every column of every ledger table '
+                '(incl. description, other_accounts, typed tables, accounts, commodities) and the metadata / open / commodity functions against a direct traversal of '
+                'the directives on generated ledgers; row iteration order and counts.',
     trusted_base=['Beancount data model (field names), hash_entry, get_weight, get_account_open_close, get_commodity_directives'], assumptions=[],
 )
 
